@@ -93,6 +93,7 @@ func loadProg(repo string) (*Prog, error) {
 		return nil, fmt.Errorf("only %d packages loaded from %s; expected >= 40", len(p.Pkgs), repo)
 	}
 	sort.Slice(p.Pkgs, func(i, j int) bool { return p.Pkgs[i].PkgPath < p.Pkgs[j].PkgPath })
+	indexRangeVars(p)
 	return p, nil
 }
 
